@@ -271,6 +271,15 @@ pub fn vslice_from<'a>(s: &'a [u8], a: usize) -> (r: &'a [u8])
     &s[a..]
 }
 
+/// `s.get(i).cloned().expect(..)` (explicit rewrite at the site)
+#[verifier::external_body]
+pub fn slice_get_u8(s: &[u8], i: usize) -> (r: u8)
+    requires panics_allowed() || i < s@.len(),
+    ensures i < s@.len(), r == s@[i as int],
+{
+    s.get(i).cloned().expect("index")
+}
+
 pub proof fn lemma_vslice_wf(s: &[u8], r: &[u8], a: int, b: int)
     requires slice_wf(s), 0 <= a <= b <= s@.len(), r@ == s@.subrange(a, b),
         slice_addr(r) == slice_addr(s) + a, slice_prov(r) == slice_prov(s),
